@@ -347,4 +347,28 @@ theorem slice_take_of_embed (src code : Str) (start k : Nat)
   congr 1
   omega
 
+/-! ### the wrapper `(code), (filters,)` keeps the line structure -/
+
+theorem take_prefix_add {α} (a b t : List α) (k : Nat) (hk : k ≤ b.length) :
+    (a ++ b ++ t).take (a.length + k) = a ++ b.take k := by
+  rw [List.append_assoc, take_length_add_append, List.take_append_of_le_length hk]
+
+/-- a call at offset `j` of the expression's code is at offset `j + 1` of the wrapper, with as many newlines before it -/
+theorem wrap_take_code (c e : Str) (j : Nat) (hj : j ≤ c.length) :
+    countNL ((wrapExpr c e).take (j + 1)) = countNL (c.take j) := by
+  simp only [wrapExpr, List.cons_append, List.take_succ_cons, countNL_cons, List.append_assoc]
+  rw [List.take_append, countNL_append]
+  simp [Nat.sub_eq_zero_of_le hj]
+
+/-- a call at offset `k` of the filter list is at offset `|code| + 5 + k` of the wrapper; the newlines before it are
+    those of the code and those of the filter list before the call -/
+theorem wrap_take_filter (c e : Str) (k : Nat) (hk : k ≤ e.length) :
+    countNL ((wrapExpr c e).take (c.length + 5 + k)) = countNL c + countNL (e.take k) := by
+  have h := take_prefix_add ('(' :: c ++ [')', ',', ' ', '(']) e [',', ')'] k hk
+  have hl : ('(' :: c ++ [')', ',', ' ', '(']).length = c.length + 5 := by simp
+  rw [hl] at h
+  have hw : wrapExpr c e = ('(' :: c ++ [')', ',', ' ', '(']) ++ e ++ [',', ')'] := by simp [wrapExpr]
+  rw [hw, h]
+  simp [countNL_append, countNL_cons]
+
 end MakoModel.Extract
